@@ -1993,6 +1993,14 @@ func (x *Exec) builtin(fr *Frame, name string, cc *ssa.CallCommon, args []Value,
 }
 
 func (x *Exec) appendOp(fr *Frame, cc *ssa.CallCommon, args []Value, pos token.Pos) Value {
+	// a list of non-scalars merged from two paths (an element appended on one of them only): append on each side
+	if ch, ok := args[0].(*ChoiceV); ok {
+		if el := cc.Args[0].Type().Underlying().(*types.Slice).Elem(); !isByteLike(el) {
+			ra := x.appendOp(fr, cc, []Value{ch.A, args[1]}, pos)
+			rb := x.appendOp(fr, cc, []Value{ch.B, args[1]}, pos)
+			return x.mergeValue(ch.C, ra, rb)
+		}
+	}
 	a := asSlice(args[0])
 	b := asSlice(args[1])
 	elem := cc.Args[0].Type().Underlying().(*types.Slice).Elem()
